@@ -32,7 +32,15 @@ static uint64_t next_rand() {
     uint64_t x = g_rng.fetch_add(0x9E3779B97F4A7C15ull) + 0x9E3779B97F4A7C15ull;
     x = (x ^ (x >> 30)) * 0xBF58476D1CE4E5B9ull; x = (x ^ (x >> 27)) * 0x94D049BB133111EBull; return x ^ (x >> 31);
 }
+// threads of a SECOND dispatcher (touchother) are not part of the recorded trace: a thread whose first schedule point falls into
+// the window in which that dispatcher starts is one of its workers, for good
+static std::atomic<bool> g_other_starting{false};
+static thread_local bool t_mute = false;      // the calling thread is acting on the other dispatcher right now
 static void sched_hook(int point, unsigned thread, unsigned queue, unsigned value) {
+    if (t_mute) return;
+    static thread_local int t_owner = 0;      // 0 unknown, 1 first dispatcher (or the main thread), 2 the other one
+    if (t_owner == 0) t_owner = g_other_starting.load() ? 2 : 1;
+    if (t_owner == 2) return;
     const uint64_t s = g_seq.fetch_add(1);
     if (point != 14 && point != 16) {       // unsuccessful barrier reads are not recorded one by one
         std::lock_guard<std::mutex> lock{g_ev_mutex};
@@ -54,6 +62,8 @@ static std::atomic<int> g_serial_running[16];
 static std::atomic<int> g_serial_max[16];
 static unsigned g_thread_count = 0;
 
+static Dispatcher* g_disp = nullptr;          // the dispatcher the recorded tasks run on
+static std::atomic<int> g_tid_mismatch{0};     // a task whose thread id, asked from its own dispatcher, is not the id it was handed
 static Job make_task(int queue, int id, int work) {
     g_tasks.push_back(std::make_unique<TaskRec>());
     TaskRec* rec = g_tasks.back().get(); rec->queue = queue; rec->id = id;
@@ -61,6 +71,7 @@ static Job make_task(int queue, int id, int work) {
         rec->begin = g_seq.fetch_add(1);
         rec->tid = tid.toInt();
         if (tid.toInt() > g_thread_count) g_tid_range++;
+        if (g_disp && g_disp->currentThreadId() != tid) g_tid_mismatch++;
         { std::lock_guard<std::mutex> lock{g_run_mutex}; if (!g_running_tids.insert(tid.toInt()).second) g_tid_clash++; }
         if (queue > 0) { int r = ++g_serial_running[queue]; int m = g_serial_max[queue].load(); while (r > m && !g_serial_max[queue].compare_exchange_weak(m, r)) {} }
         volatile uint64_t x = 0; for (int i = 0; i < work; ++i) x += i;
@@ -91,7 +102,7 @@ static void run_script(const std::vector<std::string>& lines) {
         printf("op %zu %s\n", opn++, line.c_str()); fflush(stdout);
         std::ostringstream R;
         if (op == "seed") { uint64_t s; int permille; in >> s >> permille; g_rng = s * 2654435761ull + 1; g_yield_permille = permille; }
-        else if (op == "disp") { unsigned n; in >> n; disp = std::make_unique<Dispatcher>(n); g_thread_count = disp->threadCount(); R << g_thread_count; }
+        else if (op == "disp") { unsigned n; in >> n; disp = std::make_unique<Dispatcher>(n); g_disp = disp.get(); g_thread_count = disp->threadCount(); R << g_thread_count; }
         else if (op == "queue") { queues.push_back(disp->createQueue("q" + std::to_string(queues.size()))); R << queues.size(); }
         else if (op == "par") { int k; in >> k; for (int i = 0; i < k; ++i) disp->addParallelTask(make_task(0, next_id[0]++, int(next_rand() % 3000))); }
         else if (op == "async") { size_t q; int k; in >> q >> k; for (int i = 0; i < k; ++i) queues[q - 1].async(make_task(int(q), next_id[q]++, int(next_rand() % 3000))); }
@@ -128,6 +139,28 @@ static void run_script(const std::vector<std::string>& lines) {
             mustache_verif_sched = saved;
             R << "destroyed=" << count;
         }
+        else if (op == "touchother") {
+            // a second dispatcher is alive; every worker of the first one asks THAT one for its thread id (it is not one of its threads:
+            // the answer is 0), before and between the recorded tasks, which ask their own dispatcher
+            int k; in >> k;
+            // the schedule hook cannot tell two dispatchers apart: the first one is brought to rest (all its workers parked) and the
+            // hook is switched off while the second one starts and stops, so the recorded trace stays the first dispatcher's own
+            disp->waitForParallelFinish();
+            for (auto& q : queues) q.wait();
+            g_other_starting = true;                 // its worker's first schedule point (loop top) marks that thread as foreign
+            t_mute = true;                           // the main thread's own calls on behalf of the other dispatcher are not recorded;
+            auto other = std::make_unique<Dispatcher>(1);   // the first dispatcher's workers stay recorded all the time
+            other->waitForParallelFinish();          // until its worker has passed its first schedule points and is parked
+            t_mute = false;
+            g_other_starting = false;
+            std::atomic<int> wrong{0};
+            for (int i = 0; i < k; ++i) disp->addParallelTask([&](ThreadId) { if (other->currentThreadId().toInt() != 0u) wrong++; std::this_thread::yield(); });
+            disp->waitForParallelFinish();
+            t_mute = true;
+            other.reset();
+            t_mute = false;
+            g_tid_mismatch += wrong.load();
+        }
         else if (op == "single") { int on; in >> on; disp->setSingleThreadMode(on != 0); }
         else if (op == "sleep") { int us; in >> us; std::this_thread::sleep_for(std::chrono::microseconds(us)); }
         else if (op == "del") {
@@ -150,7 +183,7 @@ static void run_script(const std::vector<std::string>& lines) {
     // serial order: begin order equals id order per serial queue
     int order_bad = 0;
     for (int q = 1; q < 16; ++q) { uint64_t last = 0; for (auto& t : g_tasks) if (t->queue == q && t->runs.load() == 1) { if (t->begin.load() < last) order_bad++; last = t->begin.load(); } }
-    printf("op %zu (summary)\nA twice=%d serial_max_concurrent=%d serial_order_violations=%d tid_clash=%d tid_out_of_range=%d\n", opn, twice, smax, order_bad, g_tid_clash.load(), g_tid_range.load());
+    printf("op %zu (summary)\nA twice=%d serial_max_concurrent=%d serial_order_violations=%d tid_clash=%d tid_out_of_range=%d tid_mismatch=%d\n", opn, twice, smax, order_bad, g_tid_clash.load(), g_tid_range.load(), g_tid_mismatch.load());
     std::sort(g_events.begin(), g_events.end(), [](const Ev& a, const Ev& b) { return a.seq < b.seq; });
     printf("T");
     for (auto& e : g_events) printf(" %d:%u:%u:%u", e.point, e.thread, e.queue, e.value);
